@@ -256,6 +256,19 @@ def cmdNames : P String := do
   withFit nx nu s fun _ => do
     pure ("ok\t" ++ "\t".intercalate (featureNamesOut s (nx, nu) fitEp given sym fmt callEp))
 
+/-- `accept <n|k names…> <n|k names…>` : would a call with the second names be accepted by an estimator fitted with the
+first? -/
+def cmdAccept : P String := do
+  let one : P (Option (List String)) := do
+    let g ← tok
+    if g == "n" then pure none else
+      match g.toNat? with
+      | some k => do let ns ← pMany k tok; pure (some ns)
+      | none => throw "names expected"
+  let f ← one
+  let c ← one
+  pure (if namesAccepted f c then "ok 1" else "ok 0")
+
 def pRMat : P Gram.RMat := do
   let r ← pNat; let c ← pNat
   pMany r (pMany c pRat)
@@ -409,6 +422,7 @@ def dispatch : P String := do
   | "fitloop" => cmdFitLoop
   | "tsvd" => cmdTsvd
   | "names" => cmdNames
+  | "accept" => cmdAccept
   | "config" => cmdConfig
   | "cprog" => cmdCProg
   | "weights" => cmdWeights
